@@ -95,6 +95,10 @@ func validateAndConvert[I ISwComponent](vals []ISwComponent) ([]I, error) {
 	ret := make([]I, len(vals))
 
 	for i, sc := range vals {
+		if isNilComponent(sc) {
+			return nil, fmt.Errorf("failed at index %d: %w: nil software component", i, ErrWrongSyntax)
+		}
+
 		if err := sc.Validate(); err != nil {
 			return nil, fmt.Errorf("failed at index %d: %w", i, err)
 		}
